@@ -6,7 +6,7 @@ Driver for C07. Case line:
   <id> <30|31> <strict> <nenv> ENV* <nops> OP*  =>  OFF ON <metaValid> <refsResolve> <stable> <validatorAgrees> <served> <coldStart> <dataIntact>
 
   ENV := <tid> S <name> <pkgPath> <n> FIELD*  |  <tid> A TY
-  FIELD := F <name> <exported> <json> <validate> <query> <path> <header> <cookie> <default> TY | E <tid>
+  FIELD := F <name> <exported> <json> <validate> <query> <path> <header> <cookie> <default> <style> <explode> <typeIs> TY | E <tid>
   TY := P <kind> | T | Ptr TY | Sl TY | Ar TY | Mp <0|1> TY | N <tid>
   OP := <method> <path> <summary> <description> <opID> (0 | 1 TY) <nresp> { <status> <statusText> (0 | 1 TY) }*
         <ntags> <tag>* <deprecated> <nsec> { <scheme> <nscopes> <scope>* }*
@@ -106,8 +106,9 @@ def pField : M Field := do
   | "F" => do
     let name ← pStr; let ex ← pBool; let json ← pStr; let validate ← pStr
     let query ← pStr; let path ← pStr; let header ← pStr; let cookie ← pStr; let dflt ← pStr
+    let style ← pStr; let explode ← pStr; let typeIs ← pStr
     let ty ← pTy
-    pure (.field { name, exported := ex, json, validate, query, path, header, cookie, dflt } ty)
+    pure (.field { name, exported := ex, json, validate, query, path, header, cookie, dflt, style, explode, typeIs } ty)
   | "E" => Field.embed <$> pNat
   | _ => fail s!"unknown field token {t}"
 
@@ -253,15 +254,25 @@ def pContent : M (Option Schema) := do
       | some t => pure (some t)
       | none => fail "media type without schema"
 
+structure ParamAcc where
+  name : B := []
+  loc : B := []
+  required : Bool := false
+  schema : Option Schema := none
+  style : B := []
+  explode : Bool := false
+
 def pParam : M (Param Schema) := do
-  let r ← pObj (([] : B), ([] : B), false, (none : Option Schema)) fun k acc => do
-    if k = s "name" then do let v ← pJStr; pure (v, acc.2.1, acc.2.2.1, acc.2.2.2)
-    else if k = s "in" then do let v ← pJStr; pure (acc.1, v, acc.2.2.1, acc.2.2.2)
-    else if k = s "required" then do let v ← pJBool; pure (acc.1, acc.2.1, v, acc.2.2.2)
-    else if k = s "schema" then do let v ← pSchema; pure (acc.1, acc.2.1, acc.2.2.1, some v)
+  let r ← pObj ({} : ParamAcc) fun k acc => do
+    if k = s "name" then do let v ← pJStr; pure { acc with name := v }
+    else if k = s "in" then do let v ← pJStr; pure { acc with loc := v }
+    else if k = s "required" then do let v ← pJBool; pure { acc with required := v }
+    else if k = s "schema" then do let v ← pSchema; pure { acc with schema := some v }
+    else if k = s "style" then do let v ← pJStr; pure { acc with style := v }
+    else if k = s "explode" then do let v ← pJBool; pure { acc with explode := v }
     else fail s!"unknown parameter member {String.ofList k}"
-  match r.2.2.2 with
-  | some sch => pure { name := r.1, loc := r.2.1, required := r.2.2.1, schema := sch }
+  match r.schema with
+  | some sch => pure { name := r.name, loc := r.loc, required := r.required, schema := sch, style := r.style, explode := r.explode }
   | none => fail "parameter without schema"
 
 def insertRespD (x : Resp Schema) : List (Resp Schema) → List (Resp Schema) := insertResp x
@@ -440,7 +451,9 @@ def diffOperation (path : String) (m i : Operation Schema) : Option String :=
   else if m.security ≠ i.security then some s!"{path}: security"
   else
     (diffList (path ++ "/parameters") (fun p a b =>
-      if a.name ≠ b.name ∨ a.loc ≠ b.loc ∨ a.required ≠ b.required then
+      if a.style ≠ b.style ∨ a.explode ≠ b.explode then
+        some s!"{p}: {String.ofList a.name} style/explode {String.ofList a.style}/{a.explode} vs {String.ofList b.style}/{b.explode}"
+      else if a.name ≠ b.name ∨ a.loc ≠ b.loc ∨ a.required ≠ b.required then
         some s!"{p}: {String.ofList a.loc}:{String.ofList a.name}:{a.required} vs {String.ofList b.loc}:{String.ofList b.name}:{b.required}"
       else diffSchema (p ++ "/" ++ String.ofList a.name) a.schema b.schema) m.params i.params).orElse fun _ =>
     (diffOptSchema (path ++ "/requestBody") m.body i.body).orElse fun _ =>
@@ -468,6 +481,7 @@ def errName : Err → String
   | .status => "status"
   | .noPaths => "nopaths"
   | .validation => "validation"
+  | .style => "style"
 
 def clean (x : String) : String := x.map fun c => if c = ' ' ∨ c = '\n' then '_' else c
 
